@@ -148,6 +148,10 @@ def run(tier):
                 # neither a load error nor a single diagnostic, although these two packages contain a
                 # `len(s) >= 0` that is reported whenever the package is analysed at all
                 res.add_violation("broken-target-silently-ignored:%s:%s" % (fe, label), "%s %s: no message, no diagnostic, exit status 0" % (b, " ".join(argv)), case)
+            if "./broken/badclause" in argv and not ("badclause" in txt and rc != 0):
+                # a target that cannot be loaded at all cannot be "analysed as far as its type information allows":
+                # it must be reported, however many healthy packages accompany it
+                res.add_violation("unloadable-target-dropped:%s" % fe, "%s %s: the target without a valid package clause is neither reported nor does the run fail (rc=%d)" % (b, " ".join(argv), rc), case)
             if label in ("nosuchdir", "nosuchpath", "nopackages"):
                 res.notes.append("observation: %s %s -> exit status %d" % (b, " ".join(argv), rc))
     for (b, label), obs in by_conf.items():
